@@ -402,7 +402,13 @@ pub fn configs(prop: &str, args: &Args) -> Vec<Cfg> {
     let timeout_ms = if thorough { 120_000 } else { 10_000 };
     let pairs: Vec<(End, End)> = End::ALL.iter().flat_map(|l| End::ALL.iter().map(move |r| (*l, *r))).collect();
     let mut out = vec![];
-    for n in 3..=nmax {
+    // quick tier: besides n = 3..7 a few long axes, so that defects that only show deeper in the arrays (rows beyond
+    // 8, search windows) are seen on every change
+    let mut sizes: Vec<(usize, usize)> = (3..=nmax).map(|n| (n, per_n)).collect();
+    if !thorough {
+        sizes.extend([(9, 5), (11, 5), (13, 4)]);
+    }
+    for (n, per_n) in sizes {
         for (ai, axis) in axis_family(n, per_n, args.seed).into_iter().enumerate() {
             let mut add = |bc: Bc, trailing: Vec<usize>| out.push(Cfg { axis: axis.clone(), bc, trailing, timeout_ms });
             let tr = |k: usize| -> Vec<usize> {
@@ -435,7 +441,14 @@ pub fn configs(prop: &str, args: &Args) -> Vec<Cfg> {
                 let rows = (0..cnt).map(|j| { let (l, r) = pairs[(ai * 5 + j * 6 + 1) % 25]; if j == 1 { Row::Plain(plain[(ai + j) % 3]) } else { Row::Mixed(l, r) } }).collect();
                 add(Bc::Individual(rows), shape);
             }
-            if thorough && ai % 8 == 0 {
+            if (thorough && ai % 8 == 1) || (!thorough && n == 4 && ai % 6 == 0) {
+                // three trailing axes where most lanes share one condition and a single lane differs (a shortcut that
+                // decides "all lanes equal" from a subset of the lanes must not fire)
+                add(Bc::Individual(vec![Row::Plain(End::Nat), Row::Plain(End::Cla)]), vec![1, 2, 1]);
+                let rows = (0..8).map(|j| if j == 2 { Row::Mixed(End::Cla, End::Nak) } else { Row::Mixed(End::D1, End::D2) }).collect();
+                add(Bc::Individual(rows), vec![2, 2, 2]);
+            }
+            if (thorough && ai % 8 == 0) || (!thorough && n == 5 && ai % 6 == 0) {
                 add(Bc::NotAKnot, vec![2, 1, 2]);
                 let rows = (0..4).map(|j| { let (l, r) = pairs[(ai + j * 6 + 2) % 25]; Row::Mixed(l, r) }).collect();
                 add(Bc::Individual(rows), vec![2, 1, 2]);
@@ -473,8 +486,8 @@ pub fn run(prop: &str, args: &Args) -> Report {
         rep.functions.insert(f.to_string());
     }
     let thorough = args.thorough();
-    rep.bounds.push(format!("axis length n = 3..{}; {} concrete rational axes per n (family of DESIGN 5.0, pairwise distinct interval lengths except the uniform member; seed-generated members use VERIF_SEED)", if thorough { 16 } else { 7 }, if thorough { 40 } else { 12 }));
-    rep.bounds.push("boundaries: NotAKnot, Natural, Clamped, Periodic for the whole data set; Individual with Mixed(left,right) over the 25 ordered pairs of {NotAKnot,Natural,Clamped,FirstDeriv(v),SecondDeriv(v)} (quick: 6 pairs per axis, rotating; thorough: all 25 per axis); per-lane assignments over 2, 2x2 (thorough 2x3, 2x1x2) lanes".into());
+    rep.bounds.push(format!("axis length n = 3..{} (quick: plus 9, 11, 13 with 4-5 axes each); {} concrete rational axes per n (family of DESIGN 5.0, pairwise distinct interval lengths except the uniform member; seed-generated members use VERIF_SEED)", if thorough { 16 } else { 7 }, if thorough { 40 } else { 12 }));
+    rep.bounds.push("boundaries: NotAKnot, Natural, Clamped, Periodic for the whole data set; Individual with Mixed(left,right) over the 25 ordered pairs of {NotAKnot,Natural,Clamped,FirstDeriv(v),SecondDeriv(v)} (quick: 6 pairs per axis, rotating; thorough: all 25 per axis); per-lane assignments over 2, 2x2, 2x1x2, 1x2x1 and 2x2x2 (all lanes equal but one) lanes (thorough also 2x3)".into());
     rep.bounds.push("trailing data shapes (), (2), (1,2), (2,2) [thorough: (2,3), (2,1,2)]; every data value, FirstDeriv/SecondDeriv value and the query are solver variables (reals)".into());
     rep.outside.push("symbolic (non-concrete) axes: NRA queries with symbolic spline axes are not decided by z3/cvc5 (DESIGN section 4)".into());
     rep.outside.push("floating-point rounding (layer N): the claim is about the real-number semantics of the executed operation sequence".into());
